@@ -6,12 +6,23 @@ shape with 0..3 positional arguments and any subset of {a, b, c, zz} as keywords
 Oracle: CPython's own binder (``inspect.Signature.bind``, cross-checked by really calling
 the compiled definitions).  Griffe side: one-function modules visited and diffed with
 ``find_breaking_changes``.
+
+Second workload ("placed"): the same signatures as methods / functions behind public paths of
+random small class hierarchies spread over one or two modules (own, inherited through private and
+public intermediates, several definers in the MRO, nested classes, imported bases, re-exported
+functions and classes, ``__all__``), old and new differing by changed signatures, added / removed
+overrides, reordered bases, a function moving between modules.  Oracle: both versions are really
+executed; CPython's attribute lookup says what every public path resolves to and real calls
+through the path say which call shapes bind.
 """
 from __future__ import annotations
 
 import inspect
 import itertools
 import random
+import sys
+import textwrap
+import types
 
 from vf.core.util import visit_source
 
@@ -21,20 +32,36 @@ ANCHORS = ["diff.py"]
 RULE = ("all legal signatures over parameter names {a,b} (quick) / {a,b,c} (thorough; pairs sampled per shard beyond the "
         "full {a,b} product) x kinds {pos-only, normal, *var, kw-only, **var} x default in {none,0,1}; all (old,new) "
         "pairs; 64 call shapes (0..3 positional x subsets of keywords {a,b,c,zz}) bound with inspect.Signature.bind. "
-        "distinct = (old source, new source); non-trivial = at least one call binds to old and not to new")
+        "distinct = (old source, new source); non-trivial = at least one call binds to old and not to new. "
+        "Placed workload (random sample per seed): 1..5 classes in modules m / vfh, each public or private, top-level or nested, "
+        "0..3 bases among the earlier ones (hierarchies CPython cannot linearise are redrawn), each defining method f or not with a "
+        "signature over {a,b}, independently in old and new (same / call-breaking partner / other / absent), instance, static or "
+        "class methods, optional module-level function g defined in m or imported from vfh per version, optional __all__; "
+        "non-trivial = some call through a public path binds in the old version and not in the new one")
 LEVEL_TEXT = ("For every pair of the enumerated signature space the set of calls CPython binds to the old but not the new "
               "definition is computed with CPython's binder; the real find_breaking_changes must report >=1 breakage "
               "whenever that set is non-empty, must name every moved / default-changed / newly-required parameter, must "
               "stay silent on identical pairs and must only name parameters that changed. Exhaustive over the {a,b} "
-              "alphabet; the {a,b,c} space is exhaustive in thorough tier for signature pairs sharing the sampled old side.")
+              "alphabet; the {a,b,c} space is exhaustive in thorough tier for signature pairs sharing the sampled old side. "
+              "'Exhaustive' refers to that pair space only: the placements of a function behind public paths (class hierarchies, "
+              "inheritance, re-exports) are a random sample; for each of them every public path of the old version is resolved by "
+              "really executing both versions and a breakage located at the path, at the owner's member slot or at the resolved "
+              "definition is demanded whenever a call through the path stops binding.")
 LEVEL_NOTE = ("trusted: inspect.Signature.bind (cross-checked against real calls for every signature x call shape); call "
               "shapes bounded to <=3 positional and keywords from {a,b,c,zz}; defaults limited to two literal values")
 TECHNIQUE = "runtime monitoring: differential oracle (CPython Signature.bind / real calls) over an exhaustively enumerated pair space"
 REQUIRED_COUNTERS = ["pairs_with_broken_call", "identical_pairs_silent", "moved_checked", "default_changed_checked",
-                     "became_required_checked", "reported_param_breakages_checked", "bind_vs_real_call_agreements"]
+                     "became_required_checked", "reported_param_breakages_checked", "bind_vs_real_call_agreements",
+                     "placed_paths_with_broken_call", "placed_inherited_paths_with_broken_call",
+                     "placed_shadowing_inherited_paths_with_broken_call", "placed_paths_via_private_definer_with_broken_call",
+                     "placed_paths_into_other_module_with_broken_call", "placed_identical_silent", "placed_param_rules_checked",
+                     "placed_reported_param_breakages_checked"]
 EXHAUSTIVE = {"quick": True, "thorough": True}
 ASSUMPTIONS = ["a call is 'broken' iff really calling the old definition succeeds and the new one raises TypeError at binding (inspect.Signature.bind is the cross-check; where it disagrees the real call wins)",
-               "call shapes limited to 0..3 positional arguments and keyword subsets of {a,b,c,zz}"]
+               "call shapes limited to 0..3 positional arguments and keyword subsets of {a,b,c,zz}",
+               "placed workload: a public path is a name of the main module that is listed in __all__ (or, without __all__, is "
+               "defined there and has no leading underscore) followed by underscore-free attribute names; methods are called "
+               "through an instance; decorators and flavours (instance/static/class method) are the same in both versions"]
 
 PO, PK, VP, KO, VK = "po", "pk", "vp", "ko", "vk"
 KW_NAMES = ["a", "b", "c", "zz"]
@@ -123,21 +150,24 @@ def describe(sig) -> dict:  # noqa: ANN001
 
 # ------------------------------------------------------------------------------------------
 # mechanism classifiers for *missed* breakages (relations between the two signatures)
-def classify_miss(old, new, so: str, sn: str, broken: int) -> tuple[str | None, list[str]]:  # noqa: ANN001
+def classify_miss(old, new, so: str, sn: str, broken: int) -> tuple[str | None, list[str]]:  # noqa: ANN001, ARG001
+    ns: dict = {}
+    exec(compile(sn, "<new>", "exec"), ns)  # noqa: S102
+    return classify_miss_funcs(describe(old), describe(new), ns["f"], broken)
+
+
+def classify_miss_funcs(do: dict, dn: dict, new_call, broken: int) -> tuple[str | None, list[str]]:  # noqa: ANN001
     """Known-finding predicates are relations between the two signatures plus the observed failure class."""
-    do, dn = describe(old), describe(new)
     tried = ["C10-variadic-loses-stars", "C10-new-variadic-name-collision"]
     for name, (kind, _i, _d, _r) in do.items():
         if kind in (VP, VK) and name in dn and dn[name][0] not in (VP, VK) and not any(k == kind for k, *_ in dn.values()):
             return "C10-variadic-loses-stars", tried
     if any(k in (VP, VK) for k, *_ in dn.values()):
-        ns: dict = {}
-        exec(compile(sn, "<new>", "exec"), ns)  # noqa: S102
         only_multiple = True
         for bit, (npos, kws) in enumerate(CALLS):
             if broken >> bit & 1:
                 try:
-                    ns["f"](*range(npos), **{k: 9 for k in kws})
+                    new_call(*range(npos), **{k: 9 for k in kws})
                 except TypeError as exc:
                     if "multiple values for argument" not in str(exc):
                         only_multiple = False
@@ -147,13 +177,371 @@ def classify_miss(old, new, so: str, sn: str, broken: int) -> tuple[str | None, 
     return None, tried
 
 
+# ------------------------------------------------------------------------------------------
+# Placed functions.  The statement quantifies over the signatures of *public functions*; what a caller reaches through a
+# public path is whatever CPython resolves that path to: an own method of a public class, a method inherited through a
+# class hierarchy (the MRO picks the definition; intermediate classes may be private, several ancestors may define the
+# name), a method of a nested class, a class or a function that lives in another module and is imported / re-exported.
+# Generator: random small hierarchies spread over one or two modules; every class defines the method or not, old and new
+# independently (signature changed, override added, override removed, bases reordered).
+# Oracle: both versions are executed; CPython's own attribute lookup names the function behind every public path, real
+# calls through that path decide which call shapes bind.  Nothing of griffe's resolution is consulted.
+MAIN, HELPER = "m", "vfh"
+FLAVORS = {"inst": ("self", ""), "cls": ("cls", "@classmethod\n"), "static": (None, "@staticmethod\n"), "plain": (None, "")}
+INSPECT_KIND = {inspect.Parameter.POSITIONAL_ONLY: PO, inspect.Parameter.POSITIONAL_OR_KEYWORD: PK,
+                inspect.Parameter.VAR_POSITIONAL: VP, inspect.Parameter.KEYWORD_ONLY: KO, inspect.Parameter.VAR_KEYWORD: VK}
+
+
+def render_def(sig, name: str, flavor: str) -> str:  # noqa: ANN001
+    first, deco = FLAVORS[flavor]
+    if first is not None:
+        sig = ((first, PO if sig and sig[0][1] == PO else PK, None), *sig)
+    return deco + render(sig).replace("def f(", f"def {name}(", 1)
+
+
+def _render_module(which: str, plan: dict, ver: str, sigs) -> str | None:  # noqa: ANN001
+    chunks = []
+    if which == MAIN:
+        imports = plan["imports"] + (["g"] if plan["g"] is not None and plan["g"]["where"][ver] == HELPER else [])
+        if imports:
+            chunks.append(f"from {HELPER} import {', '.join(imports)}\n")
+        if plan["exports"] is not None:
+            chunks.append(f"__all__ = {plan['exports']!r}\n")
+    for c in plan["classes"]:
+        if c["where"] != which:
+            continue
+        bases = c["bases"][ver]
+        head = f"class {c['name']}" + (f"({', '.join(bases)})" if bases else "") + ":\n"
+        d = c[ver]
+        text = head + textwrap.indent(render_def(sigs[d], "f", plan["flavor"]) if d is not None else "pass\n", "    ")
+        if c["box"]:
+            text = f"class {c['box']}:\n" + textwrap.indent(text, "    ")
+        chunks.append(text)
+    if plan["g"] is not None and plan["g"]["where"][ver] == which:
+        chunks.append(render_def(sigs[plan["g"][ver]], "g", "plain"))
+    if which == HELPER and not chunks:
+        return None
+    return "\n".join(chunks)
+
+
+def gen_placed(rng: random.Random, sigs, breaking: list[list[int]]) -> dict:  # noqa: ANN001, C901
+    """One literal case {"old": {module: source}, "new": {module: source}}."""
+    nsig = len(sigs)
+
+    def partner(i: int) -> int:  # mostly a signature that CPython refuses for some call sigs[i] accepts
+        return rng.choice(breaking[i]) if breaking[i] and rng.random() < 0.8 else rng.randrange(nsig)
+
+    for _attempt in range(50):
+        n = rng.choice([1, 2, 2, 3, 3, 3, 4, 4, 5])
+        use_helper = rng.random() < 0.4
+        classes: list[dict] = []
+        for i in range(n):
+            last = i == n - 1
+            where = HELPER if (use_helper and not last and rng.random() < 0.5) else MAIN
+            pool = [c for c in classes if where == MAIN or c["where"] == HELPER]
+            want = rng.choice([1, 1, 2, 2, 3]) if last else rng.choice([0, 1, 1, 1, 2, 2, 3])
+            bases = [c["ref"] for c in rng.sample(pool, min(want, len(pool)))]
+            box = None
+            if where == MAIN and rng.random() < 0.15:
+                box = ("_" if rng.random() < 0.3 else "") + f"Box{i}"
+            name = ("_" if not last and rng.random() < 0.45 else "") + f"K{i}"
+            old_def = rng.randrange(nsig) if rng.random() < 0.55 else None
+            r = rng.random()
+            if r < 0.5:
+                new_def = old_def
+            elif old_def is not None and r < 0.85:
+                new_def = partner(old_def)
+            else:
+                new_def = rng.randrange(nsig) if rng.random() < 0.6 else None
+            new_bases = list(reversed(bases)) if len(bases) > 1 and rng.random() < 0.1 else bases
+            classes.append({"name": name, "where": where, "box": box, "ref": (box + "." if box else "") + name,
+                            "bases": {"old": bases, "new": new_bases}, "old": old_def, "new": new_def})
+        if all(c["old"] is None for c in classes):
+            rng.choice(classes)["old"] = rng.randrange(nsig)
+        g = None
+        if rng.random() < 0.25:  # a module-level function: defined here or imported and re-exported, per version
+            go = rng.randrange(nsig)
+            g = {"old": go, "new": partner(go) if rng.random() < 0.7 else go,
+                 "where": {ver: rng.choice([MAIN, HELPER, HELPER]) for ver in ("old", "new")}}
+        imports = [c["name"] for c in classes if c["where"] == HELPER]
+        exports = None
+        if (g is not None and HELPER in g["where"].values()) or rng.random() < 0.2:
+            local = [c["box"] or c["name"] for c in classes if c["where"] == MAIN]
+            exports = [x for x in local if not x.startswith("_")] + (["g"] if g else [])
+            exports += [x for x in imports if rng.random() < 0.4]
+            if len(exports) > 1 and rng.random() < 0.2:
+                exports.remove(rng.choice(exports))
+            hidden = [x for x in local if x.startswith("_")]
+            if hidden and rng.random() < 0.3:
+                exports.append(rng.choice(hidden))
+        plan = {"classes": classes, "flavor": rng.choice(["inst", "inst", "inst", "static", "cls"]), "g": g,
+                "imports": imports, "exports": exports}
+        if rng.random() < 0.04:  # an untouched copy: the finder must stay silent
+            for c in classes:
+                c["new"], c["bases"]["new"] = c["old"], c["bases"]["old"]
+            if g:
+                g["new"], g["where"]["new"] = g["old"], g["where"]["old"]
+        case = {}
+        for ver in ("old", "new"):
+            files = {which: _render_module(which, plan, ver, sigs) for which in (HELPER, MAIN)}
+            case[ver] = {k: v for k, v in files.items() if v is not None}
+        try:  # CPython refuses inconsistent hierarchies (no C3 linearisation): draw again
+            for ver in ("old", "new"):
+                exec_version(case[ver])
+        except TypeError:
+            continue
+        return case
+    raise AssertionError("no consistent hierarchy in 50 draws")
+
+
+def exec_version(files: dict[str, str]) -> types.ModuleType:
+    """Really import one version (helper first); returns the main module."""
+    saved = {k: sys.modules.get(k) for k in (MAIN, HELPER)}
+    try:
+        for name in (HELPER, MAIN):
+            if name in files:
+                mod = types.ModuleType(name)
+                sys.modules[name] = mod
+                exec(compile(files[name], f"<{name}>", "exec"), mod.__dict__)  # noqa: S102
+        return sys.modules[MAIN]
+    finally:
+        for k, v in saved.items():
+            if v is None:
+                sys.modules.pop(k, None)
+            else:
+                sys.modules[k] = v
+
+
+def public_surface(mod: types.ModuleType) -> dict[str, dict]:
+    """path below the main module -> what CPython resolves it to (function object, callable as seen by a caller)."""
+    out: dict[str, dict] = {}
+    if hasattr(mod, "__all__"):
+        names = list(mod.__all__)
+    else:
+        names = [n for n, v in vars(mod).items() if not n.startswith("_") and getattr(v, "__module__", None) == mod.__name__]
+
+    def walk(cls: type, path: str, depth: int) -> None:
+        seen = set()
+        for klass in cls.__mro__[:-1]:
+            for n in klass.__dict__:
+                if n.startswith("_") or n in seen:
+                    continue
+                seen.add(n)
+                raw = inspect.getattr_static(cls, n)
+                if isinstance(raw, type):
+                    if depth < 3:
+                        walk(raw, f"{path}.{n}", depth + 1)
+                    continue
+                func = raw.__func__ if isinstance(raw, (staticmethod, classmethod)) else raw
+                if inspect.isfunction(func):
+                    definers = [k for k in cls.__mro__[:-1] if n in k.__dict__]
+                    out[f"{path}.{n}"] = {"func": func, "call": getattr(cls(), n), "owner": cls, "definers": definers,
+                                          "own_path": f"{cls.__module__}.{cls.__qualname__}.{n}"}
+
+    for n in names:
+        v = getattr(mod, n, None)
+        if isinstance(v, type):
+            walk(v, n, 0)
+        elif inspect.isfunction(v):
+            out[n] = {"func": v, "call": v, "owner": None, "definers": [], "own_path": f"{mod.__name__}.{n}"}
+    return out
+
+
+def func_path(func) -> str:  # noqa: ANN001
+    return f"{func.__module__}.{func.__qualname__}"
+
+
+def describe_func(func) -> dict:  # noqa: ANN001
+    """Same shape as describe(), read from CPython's view of the function (self/cls included)."""
+    out = {}
+    for i, p in enumerate(inspect.signature(func).parameters.values()):
+        kind = INSPECT_KIND[p.kind]
+        dfl = None if p.default is inspect.Parameter.empty else repr(p.default)
+        out[p.name] = (kind, i, dfl, dfl is None and kind not in (VP, VK))
+    return out
+
+
+_MASKS: dict[str, int] = {}
+
+
+def call_mask(call, rec) -> int:  # noqa: ANN001
+    """Which call shapes really bind to ``call`` (a bound method or function whose body is ``...``)."""
+    key = str(inspect.signature(call))  # the body is trivial and defaults are literals: the text decides the binding
+    if key not in _MASKS:
+        mask = 0
+        for bit, (npos, kws) in enumerate(CALLS):
+            try:
+                call(*range(npos), **{k: 9 for k in kws})
+                mask |= 1 << bit
+            except TypeError:
+                pass
+        _MASKS[key] = mask
+        rec.count("placed_distinct_callables_really_called")
+    return _MASKS[key]
+
+
+def load_version(files: dict[str, str]):  # noqa: ANN201
+    import griffe
+
+    collection = griffe.ModulesCollection()
+    lines = griffe.LinesCollection()
+    mods = {name: visit_source(src, name, collection=collection, lines=lines) for name, src in files.items()}
+    return mods[MAIN]
+
+
+def _standalone_miss(fo, fn) -> bool:  # noqa: ANN001
+    """Is the same pair of signatures, as plain module-level functions, also left unreported?"""
+    import griffe
+
+    so, sn = (f"def f{inspect.signature(f)}: ...\n" for f in (fo, fn))
+    return not list(griffe.find_breaking_changes(visit_source(so, "m"), visit_source(sn, "m")))
+
+
+PLACED_FINDINGS = ["C10-own-definition-becomes-alias-skipped", "C10-shared-old-target-skipped"]
+
+
+def classify_placed(key: str, o: dict, n: dict | None, surf_o: dict, surf_n: dict) -> str | None:
+    """Mechanisms by which a comparison behind a public path is dropped: relations between what CPython resolves public
+    paths to in the two versions (never the case itself)."""
+    if n is None:
+        return None
+    old_target = func_path(o["func"])
+    if old_target == o["own_path"] and func_path(n["func"]) != n["own_path"]:
+        return PLACED_FINDINGS[0]  # defined at the path before, inherited / imported there now
+    # the old definition is shared by several public paths and they do not all lead to the same definition any more
+    group = [k for k, x in surf_o.items() if func_path(x["func"]) == old_target]
+    new_targets = {func_path(surf_n[k]["func"]) if k in surf_n else None for k in group}
+    replaced = any(old_target == surf_o[k]["own_path"] and k in surf_n and func_path(surf_n[k]["func"]) != surf_n[k]["own_path"]
+                   for k in group)  # ... or the path of the definition itself is one whose comparison is dropped (above)
+    if len(group) > 1 and (len(new_targets) > 1 or replaced):
+        return PLACED_FINDINGS[1]
+    return None
+
+
+def run_placed(rec, case: dict) -> None:  # noqa: ANN001, C901, PLR0912, PLR0915
+    import griffe
+
+    old_py, new_py = exec_version(case["old"]), exec_version(case["new"])
+    surf_o, surf_n = public_surface(old_py), public_surface(new_py)
+    identical = case["old"] == case["new"]
+    try:
+        breakages = list(griffe.find_breaking_changes(load_version(case["old"]), load_version(case["new"])))
+        for b in breakages:
+            for style in griffe.ExplanationStyle:
+                b.explain(style)
+        located = [(b, b.obj.path) for b in breakages]
+    except Exception as exc:  # noqa: BLE001
+        rec.fail_exc(case, "find_breaking_changes / explain raised on placed functions", exc)
+        return
+    kinds = [(b.kind.value, p) for b, p in located]
+    problems: list[tuple] = []
+    any_broken = False
+    if identical:
+        if breakages:
+            problems.append(("identical versions but breakages reported", kinds, [], None, ()))
+        else:
+            rec.count("placed_identical_silent")
+    for key, o in surf_o.items():
+        rec.count("placed_public_paths")
+        n = surf_n.get(key)
+        mo = call_mask(o["call"], rec)
+        mn = call_mask(n["call"], rec) if n else 0
+        # a breakage "on that function": located at the public path, at the member slot of the (possibly re-exported)
+        # owner, or at the definition CPython resolves the path to, in either version
+        accept = {f"{MAIN}.{key}", o["own_path"], func_path(o["func"])} | ({n["own_path"], func_path(n["func"])} if n else set())
+        here = [b for b, p in located if p in accept]
+        inherited = o["owner"] is not None and o["definers"][0] is not o["owner"]
+        shadowing = inherited and len(o["definers"]) > 1
+        broken = mo & ~mn
+        if inherited:
+            rec.count("placed_inherited_paths")
+        if n and func_path(n["func"]) != func_path(o["func"]):
+            rec.count("placed_paths_resolution_changed")
+        other_module = o["func"].__module__ != MAIN or bool(n and n["func"].__module__ != MAIN)
+        if "." in key and key.count(".") > 1:
+            rec.count("placed_nested_class_paths")
+        if broken:
+            any_broken = True
+            rec.count("placed_paths_with_broken_call")
+            if inherited:
+                rec.count("placed_inherited_paths_with_broken_call")
+            if shadowing:  # the name is defined by several classes of the MRO and not by the class itself
+                rec.count("placed_shadowing_inherited_paths_with_broken_call")
+            if other_module:
+                rec.count("placed_paths_into_other_module_with_broken_call")
+            if inherited and o["definers"][0].__name__.startswith("_"):
+                rec.count("placed_paths_via_private_definer_with_broken_call")
+            if not here:
+                bit = (broken & -broken).bit_length() - 1
+                npos, kws = CALLS[bit]
+                call = f"{key}(" + ", ".join([str(i) for i in range(npos)] + [f"{k}=9" for k in kws]) + ")"
+                fid, tried = None, []
+                if n:
+                    fid, tried = classify_miss_funcs(describe_func(o["func"]), describe_func(n["func"]), n["call"], broken)
+                    if fid is not None and not _standalone_miss(o["func"], n["func"]):
+                        fid = None  # the plain pair is reported: the placement, not the signature rule set, lost it
+                    if fid is None:
+                        fid = classify_placed(key, o, n, surf_o, surf_n)
+                    tried = [*tried, *PLACED_FINDINGS]
+                problems.append((f"a call through public path {key} binds in the old version, not in the new one, and no "
+                                 "breakage is reported on the function it resolves to",
+                                 {"breakages": kinds, "witness_call": call, "old_resolves_to": func_path(o["func"]),
+                                  "new_resolves_to": func_path(n["func"]) if n else None}, ">=1 breakage on it", fid, tried))
+                continue
+        if not n:
+            continue
+        do, dn = describe_func(o["func"]), describe_func(n["func"])
+        named = {param_name(b) for b in here} - {None}
+        for name, (kind, idx, dfl, req) in do.items():
+            if name not in dn:
+                continue
+            nkind, nidx, ndfl, nreq = dn[name]
+            what = None
+            if kind in (PO, PK) and nkind in (PO, PK) and idx != nidx:
+                what = f"positional parameter {name} moved {idx}->{nidx}"
+            elif kind not in (VP, VK) and nkind not in (VP, VK) and dfl is not None and ndfl is not None and dfl != ndfl:
+                what = f"default of {name} changed {dfl}->{ndfl}"
+            elif not req and nreq:
+                what = f"parameter {name} became required"
+            if what:
+                rec.count("placed_param_rules_checked")
+                if name not in named:
+                    problems.append((f"{what} behind public path {key} but no breakage names it", kinds, "named",
+                                     classify_placed(key, o, n, surf_o, surf_n), PLACED_FINDINGS))
+    # every reported parameter breakage must name a parameter that changed behind some public path reaching that function
+    for b, p in located:
+        name = param_name(b)
+        if name is None:
+            continue
+        rec.count("placed_reported_param_breakages_checked")
+        justified = False
+        for key, n in surf_n.items():
+            o = surf_o.get(key)
+            if o and p in (f"{MAIN}.{key}", n["own_path"], func_path(n["func"])) and \
+                    describe_func(o["func"]).get(name) != describe_func(n["func"]).get(name):
+                justified = True
+                break
+        if not justified:
+            problems.append((f"breakage {b.kind.value} on {p} names parameter {name}, which did not change behind any public "
+                             "path that resolves to this function", kinds, "no such report", None, ()))
+    if problems:
+        problems.sort(key=lambda p: p[3] is not None)  # an unexplained problem is never hidden behind a known one
+        what, observed, expected, fid, tried = problems[0]
+        rec.fail(case, what, observed=observed, expected=expected, finding=fid, tried=tried, nontrivial=any_broken,
+                 tags=("placed",))
+    else:
+        rec.ok(case, nontrivial=any_broken, tags=("placed", "placed-broken-call") if any_broken else ("placed",))
+
+
 def shards(tier: str, seed: int) -> list[dict]:
     nsh = 16
     out = [{"kind": "pairs", "names": ["a", "b"], "part": p, "parts": nsh, "sample": None} for p in range(nsh)]
     if tier == "thorough":
         out += [{"kind": "pairs", "names": ["a", "b", "c"], "part": p, "parts": 32, "sample": 60} for p in range(32)]
+        out += [{"kind": "placed", "names": ["a", "b"], "cases": 12000} for _ in range(16)]
     else:
         out += [{"kind": "pairs", "names": ["a", "b", "c"], "part": p, "parts": 8, "sample": 3} for p in range(8)]
+        out += [{"kind": "placed", "names": ["a", "b"], "cases": 1200} for _ in range(8)]
     return out
 
 
@@ -232,6 +620,12 @@ def run_pair(rec, old, new, so, sn, mo, mn, old_mod, new_mod, nontrivial_extra=F
 def run_shard(spec: dict, rec) -> None:  # noqa: ANN001
     rng = random.Random(spec["seed"])
     sigs = signatures(spec["names"])
+    if spec["kind"] == "placed":
+        masks = [accepted_mask(render(s), rec) for s in sigs]
+        breaking = [[j for j in range(len(sigs)) if masks[i] & ~masks[j]] for i in range(len(sigs))]
+        for _ in range(spec["cases"]):
+            run_placed(rec, gen_placed(rng, sigs, breaking))
+        return
     rec.maximum(f"signatures_over_{''.join(spec['names'])}", len(sigs))
     srcs = [render(s) for s in sigs]
     assert len(set(srcs)) == len(srcs)
@@ -271,7 +665,10 @@ def run_one(rec, so: str, sn: str) -> None:  # noqa: ANN001
 
 
 def run_replay(inp: dict, rec) -> None:  # noqa: ANN001
-    run_one(rec, inp["old"], inp["new"])
+    if isinstance(inp["old"], dict):
+        run_placed(rec, inp)
+    else:
+        run_one(rec, inp["old"], inp["new"])
 
 
 def run_pinned(findings: list[dict], rec) -> dict:  # noqa: ANN001
@@ -280,7 +677,6 @@ def run_pinned(findings: list[dict], rec) -> dict:  # noqa: ANN001
     out = {}
     for f in findings:
         sub = Recorder(PROP, {})
-        w = f["witness"]
-        run_one(sub, w["old"], w["new"])
+        run_replay(f["witness"], sub)
         out[f["id"]] = pinned_result(sub, f)
     return out
